@@ -177,3 +177,23 @@ PROPS["C18"] = {
         "under jumps and late consumers ticks may be dropped (non-blocking send): alignment and strict increase are still required, 'clock reads exactly the tick value' only under exact stepping",
     ],
 }
+
+PROPS["C14"] = {
+    "pkg": "c14", "level": "exploration",
+    "jobs": {
+        "quick": [
+            {"name": "roundtrip", "run": "^TestRoundTrip$", "checks": 3200, "shards": 8},
+            {"name": "differential", "run": "^TestIngestDifferential$", "checks": 6000, "shards": 4},
+        ],
+        "thorough": [
+            {"name": "roundtrip", "run": "^TestRoundTrip$", "checks": 320000, "shards": 10, "timeout": 1700},
+            {"name": "differential", "run": "^TestIngestDifferential$", "checks": 800000, "shards": 6, "timeout": 1700},
+            {"name": "fuzz", "kind": "fuzz", "fuzz": "FuzzIngestBody", "time": "180s", "timeout": 500},
+        ],
+    },
+    "assumptions": [
+        "timestamps are not carried (stated by the property); an empty tag list may decode as nil",
+        "the reference decode uses compress/zlib, pierrec/lz4 and proto.Unmarshal directly (same libraries, independent call path)",
+        "strings are valid UTF-8 (protobuf string fields); non-UTF-8 strings are C15's finding",
+    ],
+}
